@@ -336,3 +336,410 @@ pub fn run_c15_case(p: &Program, cfg: &Config) -> CaseReport {
     rep.sample = Some(json!({"program": rep.program, "unbounded_iterations": r_inf.iterations, "unbounded_outcomes": t_inf.outcome_set.iter().take(8).collect::<Vec<_>>()}));
     rep
 }
+
+// ------------------------------------------------------------------------------------------ C16
+
+/// a model that misbehaves in some way, run before / alongside the subject
+fn disturber(rng: &mut crate::rng::Rng) -> (Program, Option<PanicFault>) {
+    match rng.below(5) {
+        0 => {
+            // panics in the middle of its exploration
+            let pr = crate::gen::litmus_profile(rng, false);
+            let p = crate::gen::gen_litmus(rng, &pr);
+            let t = rng.below(p.n_threads());
+            let pc = if p.threads[t].is_empty() { 0 } else { rng.below(p.threads[t].len()) };
+            (p, Some(PanicFault { tid: t as u8, pc: pc as u16, hit: rng.range(1, 3) as u32, marker: 4242 }))
+        }
+        1 => (crate::gen::gen_arc(rng, true), None),
+        2 => {
+            let pr = crate::gen::sync_profile(rng, "deadlock");
+            (crate::gen::gen_sync(rng, &pr), None)
+        }
+        3 => (crate::gen::gen_race(rng), None),
+        _ => {
+            let pr = crate::gen::sync_profile(rng, "wait");
+            (crate::gen::gen_sync(rng, &pr), None)
+        }
+    }
+}
+
+pub fn run_c16_case(p: &Program, cfg: &Config, rng: &mut crate::rng::Rng) -> CaseReport {
+    let mut rep = base_report(p);
+    set_panic_fault(None);
+    // baseline: the subject as the first model of a fresh process
+    let base = match child_signature(p, cfg) {
+        Some(b) => b,
+        None => {
+            rep.violations.push(viol("harness", "could not obtain the fresh-process signature".into(), json!({})));
+            return rep;
+        }
+    };
+    rep.iterations = base.1;
+    rep.status = base.0.clone();
+    rep.too_large = base.0 == "capped";
+    let mut back_to_back = 0u64;
+    let mut concurrent = 0u64;
+    let mut handoffs = 0u64;
+    let mut stalls = 0u64;
+    // ---- (1) back to back in this process, after 1-3 disturbers
+    let nd = rng.range(1, 3);
+    let mut dist_desc = Vec::new();
+    for _ in 0..nd {
+        let (d, fault) = disturber(rng);
+        let mut dc = Config::default();
+        dc.iter_cap = 300;
+        set_panic_fault(fault);
+        let (dr, _) = trace_run(&d, &dc);
+        set_panic_fault(None);
+        dist_desc.push(format!("{} -> {}", d.text(), status_text(&dr.status)));
+    }
+    let (r, t) = trace_run(p, cfg);
+    back_to_back += 1;
+    let mine = (status_text(&r.status), r.iterations, t.seq_hash());
+    if mine != base {
+        rep.violations.push(viol(
+            "isolation",
+            format!("after other models ran in the process the subject explores differently: {:?} vs fresh-process {:?}", mine, base),
+            json!({"earlier_models": dist_desc}),
+        ));
+    }
+    if let Some((it, tids)) = &t.bad_tids {
+        rep.violations.push(viol("isolation", format!("iteration {}: thread ids do not restart at the main thread: {:?}", it, tids), json!({})));
+    }
+    // ---- (2) concurrently with 1-2 other OS threads running models, interleaved by the turnstile
+    if rep.violations.is_empty() && !rep.too_large && r.iterations <= 400 {
+        let n_other = rng.range(1, 2);
+        let ts = std::sync::Arc::new(Turnstile::new(n_other + 1, crate::rng::Rng::new(rng.next_u64())));
+        if rng.chance(1, 3) {
+            // stall fault: one OS thread is starved for a long stretch
+            let mut st = ts.state.lock().unwrap();
+            st.stalled = Some(rng.below(n_other + 1));
+            st.stall_left = rng.range(20, 200) as u64;
+            stalls += 1;
+        }
+        let mut handles = Vec::new();
+        let mut descs = Vec::new();
+        for i in 0..n_other {
+            let (d, fault) = disturber(rng);
+            descs.push(d.text());
+            let ts2 = ts.clone();
+            handles.push(std::thread::spawn(move || {
+                let me = i + 1;
+                set_gate(Some((ts2.clone(), me)));
+                ts2.wait_turn(me);
+                let mut dc = Config::default();
+                dc.iter_cap = 200;
+                set_panic_fault(fault);
+                let (dr, _) = trace_run(&d, &dc);
+                set_panic_fault(None);
+                set_gate(None);
+                ts2.finish(me);
+                status_text(&dr.status)
+            }));
+        }
+        set_gate(Some((ts.clone(), 0)));
+        ts.wait_turn(0);
+        let (rc, tc) = trace_run(p, cfg);
+        set_gate(None);
+        ts.finish(0);
+        let mut others = Vec::new();
+        for h in handles {
+            others.push(h.join().unwrap_or_else(|_| "os-thread-panicked".into()));
+        }
+        concurrent += 1;
+        handoffs += ts.state.lock().unwrap().handoffs;
+        let mine = (status_text(&rc.status), rc.iterations, tc.seq_hash());
+        if mine != base {
+            rep.violations.push(viol(
+                "isolation",
+                format!("with models running on other OS threads the subject explores differently: {:?} vs fresh-process {:?}", mine, base),
+                json!({"other_models": descs, "other_status": others}),
+            ));
+        }
+        if let Some((it, tids)) = &tc.bad_tids {
+            rep.violations.push(viol("isolation", format!("iteration {} (concurrent run): thread ids do not restart at the main thread: {:?}", it, tids), json!({})));
+        }
+    }
+    rep.extra.insert("fault_back_to_back_runs".into(), back_to_back);
+    rep.extra.insert("fault_concurrent_os_thread_runs".into(), concurrent);
+    rep.extra.insert("turnstile_handoffs".into(), handoffs);
+    rep.extra.insert("fault_stalled_os_thread".into(), stalls);
+    rep.extra.insert("fault_order_other_process".into(), 1);
+    rep.sample = Some(json!({"program": rep.program, "fresh_process_signature": format!("{:?}", base), "earlier_models": dist_desc}));
+    rep
+}
+
+// ------------------------------------------------------------------------------------------ C19
+
+fn unexplorable_branch_advanced(path: &[loom::verif::Branch]) -> Option<usize> {
+    use loom::verif::{Branch, ThreadStatus};
+    for (i, b) in path.iter().enumerate() {
+        match b {
+            Branch::Schedule { threads, exploring: false, .. } => {
+                if threads.iter().any(|t| matches!(t, ThreadStatus::Pending | ThreadStatus::Visited)) {
+                    return Some(i);
+                }
+            }
+            Branch::Load { pos, exploring: false, .. } => {
+                if *pos != 0 {
+                    return Some(i);
+                }
+            }
+            Branch::Spurious { spur: true, exploring: false } => return Some(i),
+            _ => {}
+        }
+    }
+    None
+}
+
+pub fn run_c19_case(p: &Program, cfg: &Config, rng: &mut crate::rng::Rng) -> CaseReport {
+    let mut rep = base_report(p);
+    set_panic_fault(None);
+    let (r0, t0) = trace_run(p, cfg);
+    rep.iterations = r0.iterations;
+    rep.status = status_text(&r0.status);
+    rep.too_large = matches!(r0.status, LoomStatus::Capped);
+    if !matches!(r0.status, LoomStatus::Completed) {
+        return rep;
+    }
+    let n = r0.iterations;
+    let may = MachineCfg::may();
+    let mut control_runs = 0u64;
+    let mut region_restricted = 0u64;
+    let mut limit_runs = 0u64;
+    let mut clock_runs = 0u64;
+    let mut sim_clock_ms = 0u64;
+
+    // ---- (a) exploration controls at op boundaries of one thread
+    let variants = 4;
+    for v in 0..variants {
+        let mut q = p.clone();
+        let t = rng.below(q.n_threads());
+        let len = q.threads[t].len();
+        let kind = if v == 0 { 0 } else { rng.below(4) };
+        // positions: i <= j
+        let i = rng.below(len + 1);
+        let j = i + rng.below(len + 1 - i);
+        let mut qc = cfg.clone();
+        // (thread, ascending list of (index in the NEW op list, op)) to insert
+        let (tt, ins): (usize, Vec<(usize, Op)>) = match kind {
+            0 => (t, vec![(i, Op::StopExploring), (i + 1, Op::Explore)]),
+            1 => (t, vec![(i, Op::StopExploring), (j + 1, Op::Explore)]),
+            2 => (t, vec![(i, Op::SkipBranch)]),
+            _ => {
+                // start without exploring, switch it on at position i of main
+                qc.expect_explicit_explore = true;
+                (0, vec![(i.min(q.threads[0].len()), Op::Explore)])
+            }
+        };
+        // fix up If references (original index -> new index), then insert
+        for op in q.threads[tt].iter_mut() {
+            if let Op::If { pc, .. } = op {
+                let mut cur = *pc as usize;
+                for (at, _) in &ins {
+                    if cur >= *at {
+                        cur += 1;
+                    }
+                }
+                *pc = cur as u8;
+            }
+        }
+        for (at, op) in &ins {
+            q.threads[tt].insert(*at, op.clone());
+        }
+        let shifts: Vec<usize> = ins.iter().map(|x| x.0).collect();
+        // main's spawns must stay first so that thread bodies exist: only valid if the inserted op
+        // did not move a Spawn behind a Join; inserting ops never reorders, fine.
+        let (r, t1) = trace_run_opt(&q, &qc, true);
+        control_runs += 1;
+        match &r.status {
+            LoomStatus::Completed => {}
+            LoomStatus::Capped => continue,
+            LoomStatus::Failed { class, msg } => {
+                // explore()/stop_exploring() assert their state: stop_exploring while not exploring
+                // (kind 3 region before Explore) cannot happen with our placements
+                rep.violations.push(viol("controls", format!("with exploration controls ({}) the run failed: {:?} {}", q.text(), class, msg.lines().next().unwrap_or("")), json!({"program": q.text()})));
+                break;
+            }
+        }
+        if r.iterations < n {
+            region_restricted += 1;
+        }
+        // results are a subset of the unrestricted ones. Outcomes are keyed by (thread, pc): map
+        // the restricted program's outcomes back by dropping the inserted ops (they have no result)
+        let remap = |o: &String| -> String { remap_outcome(o, tt, &shifts) };
+        for o in &t1.outcome_set {
+            let back = remap(o);
+            if !t0.outcome_set.contains(&back) {
+                rep.violations.push(viol("controls", format!("with exploration controls the run produced outcome [{}] that the unrestricted run does not have", back), json!({"program": q.text()})));
+                break;
+            }
+        }
+        if kind == 0 && (r.iterations != n || t1.outcome_set.len() != t0.outcome_set.len()) {
+            rep.violations.push(viol("controls", format!("an empty stop_exploring/explore region changed the exploration: {} iterations / {} outcomes instead of {} / {}", r.iterations, t1.outcome_set.len(), n, t0.outcome_set.len()), json!({"program": q.text()})));
+        }
+        if kind == 3 && i == 0 && (r.iterations != n) {
+            rep.violations.push(viol("controls", format!("expect_explicit_explore with explore() as the first call should equal the default: {} vs {} iterations", r.iterations, n), json!({"program": q.text()})));
+        }
+        for (k, path) in t1.paths.iter().enumerate() {
+            if let Some(b) = unexplorable_branch_advanced(path) {
+                rep.violations.push(viol("controls", format!("iteration {}: branch {} was created with exploration disabled but an alternative of it was explored", k + 1, b), json!({"program": q.text(), "path": path_text(path)})));
+                break;
+            }
+            if k > 0 {
+                if let Err(e) = crate::oracle::o4_step(&t1.paths[k - 1], path) {
+                    rep.violations.push(viol("controls", format!("iteration {} is not the depth-first successor of iteration {}: {}", k + 1, k, e), json!({"program": q.text()})));
+                    break;
+                }
+            }
+        }
+        if let Some(last) = t1.paths.last() {
+            if let Some(b) = crate::oracle::o4_first_open(last) {
+                rep.violations.push(viol("controls", format!("the run ended although branch {} (exploration enabled) still had an unexplored alternative", b), json!({"program": q.text()})));
+            }
+        }
+        // every execution remains valid
+        for (k, h) in t1.histories.iter().enumerate().take(200) {
+            if let Err(e) = crate::oracle::replay_may(&q, h, &may, false) {
+                let mut dev = MachineCfg::may();
+                dev.dev = crate::graph::Deviation { at_ignores_plain_stores: true };
+                if crate::oracle::replay_may(&q, h, &dev, false).is_ok() {
+                    continue; // K3, reported by C03
+                }
+                rep.violations.push(viol("controls", format!("iteration {} under exploration controls is not a valid execution: {}", k + 1, e), json!({"program": q.text(), "history": history_text(h)})));
+                break;
+            }
+        }
+        if !rep.violations.is_empty() {
+            break;
+        }
+    }
+
+    // ---- (b) limits
+    if rep.violations.is_empty() && n >= 1 {
+        // max_branches: exact
+        let need = t0.max_path;
+        if need >= 2 {
+            let mut c = cfg.clone();
+            c.max_branches = need - 1;
+            let (r, _) = trace_run(p, &c);
+            limit_runs += 1;
+            let ok = matches!(&r.status, LoomStatus::Failed { class: FailClass::BranchLimit, .. });
+            if !ok {
+                rep.violations.push(viol("limits", format!("max_branches = {} (one less than needed): expected the documented branch-limit panic, got {}", need - 1, status_text(&r.status)), json!({})));
+            }
+            c.max_branches = need;
+            let (r, t) = trace_run(p, &c);
+            limit_runs += 1;
+            if !matches!(r.status, LoomStatus::Completed) || t.iter_hashes != t0.iter_hashes {
+                rep.violations.push(viol("limits", format!("max_branches = {} (exactly needed): expected the unrestricted exploration, got {} after {} iterations", need, status_text(&r.status), r.iterations), json!({})));
+            }
+        }
+        // max_threads: one less than the program needs
+        let nt = p.n_threads();
+        if nt >= 2 {
+            let mut c = cfg.clone();
+            c.max_threads = nt - 1;
+            let (r, _) = trace_run(p, &c);
+            limit_runs += 1;
+            if !matches!(r.status, LoomStatus::Failed { .. }) {
+                rep.violations.push(viol("limits", format!("max_threads = {} but the program runs {} threads: expected a panic, got {}", nt - 1, nt, status_text(&r.status)), json!({})));
+            }
+            c.max_threads = nt;
+            let (r, t) = trace_run(p, &c);
+            limit_runs += 1;
+            if !matches!(r.status, LoomStatus::Completed) || t.iter_hashes != t0.iter_hashes {
+                rep.violations.push(viol("limits", format!("max_threads = {} (exactly needed): expected the unrestricted exploration, got {}", nt, status_text(&r.status)), json!({})));
+            }
+        }
+        // max_permutations: stop between iterations, no later than the first boundary at/after m
+        for _ in 0..3 {
+            let interval = *rng.pick(&[1usize, 2, 3, 5, 8]);
+            let m = rng.range(1, n + 2);
+            let mut c = cfg.clone();
+            c.checkpoint_interval = interval;
+            c.max_permutations = Some(m);
+            let (r, t) = trace_run(p, &c);
+            limit_runs += 1;
+            let boundary = ((m + interval - 1) / interval) * interval;
+            let allowed = (boundary - 1).min(n).max(0);
+            let ok_prefix = t.iter_hashes.len() <= t0.iter_hashes.len() && t.iter_hashes[..] == t0.iter_hashes[..t.iter_hashes.len()];
+            if !matches!(r.status, LoomStatus::Completed) || r.iterations > allowed.max(m.min(n)) || !ok_prefix {
+                rep.violations.push(viol(
+                    "limits",
+                    format!("max_permutations = {} with checkpoint_interval {}: the run should end without failure after at most {} iterations (first boundary {}), got {} after {}", m, interval, allowed.max(m.min(n)), boundary, status_text(&r.status), r.iterations),
+                    json!({"m": m, "interval": interval}),
+                ));
+            }
+        }
+        // max_duration against the simulated clock (hook H2): per-iteration advance drawn from
+        // {0, small, huge jump}
+        for _ in 0..3 {
+            let interval = *rng.pick(&[1usize, 2, 3, 5]);
+            let limit_ms = rng.range(1, 50) as u64;
+            let advances: Vec<u64> = (0..n + 2).map(|_| *rng.pick(&[0u64, 0, 1, 1, 2, 5, 1000])).collect();
+            let clock = std::rc::Rc::new(std::cell::Cell::new(0u64));
+            let iters_done = std::rc::Rc::new(std::cell::Cell::new(0usize));
+            let c2 = clock.clone();
+            loom::verif::set_clock_hook(Some(Box::new(move || std::time::Duration::from_millis(c2.get()))));
+            let mut c = cfg.clone();
+            c.checkpoint_interval = interval;
+            c.max_duration_ms = Some(limit_ms);
+            // run with a per-iteration clock advance
+            let adv = advances.clone();
+            let clk = clock.clone();
+            let done = iters_done.clone();
+            let run = run_loom(p, &c, move |_h, _t, _p| {
+                let k = done.get();
+                clk.set(clk.get() + adv[k.min(adv.len() - 1)]);
+                done.set(k + 1);
+            });
+            loom::verif::set_clock_hook(None);
+            clock_runs += 1;
+            sim_clock_ms += clock.get();
+            // expected: loop index i = completed+1; at a boundary (i % interval == 0) with
+            // elapsed >= limit the run returns
+            let mut elapsed = 0u64;
+            let mut expect = n;
+            for done_so_far in 0..n {
+                let i = done_so_far + 1;
+                if i % interval == 0 && elapsed >= limit_ms {
+                    expect = done_so_far;
+                    break;
+                }
+                elapsed += advances[done_so_far.min(advances.len() - 1)];
+            }
+            if !matches!(run.status, LoomStatus::Completed) || run.iterations > expect {
+                rep.violations.push(viol(
+                    "limits",
+                    format!("max_duration = {} ms, checkpoint_interval {} under the simulated clock: the run should end without failure after at most {} iterations, got {} after {}", limit_ms, interval, expect, status_text(&run.status), run.iterations),
+                    json!({"limit_ms": limit_ms, "interval": interval, "advances": advances}),
+                ));
+            }
+        }
+    }
+    rep.extra.insert("fault_control_region_runs".into(), control_runs);
+    rep.extra.insert("control_region_restricted_exploration".into(), region_restricted);
+    rep.extra.insert("fault_limit_runs".into(), limit_runs);
+    rep.extra.insert("fault_clock_runs".into(), clock_runs);
+    rep.extra.insert("simulated_clock_ms".into(), sim_clock_ms);
+    rep.sample = Some(json!({"program": rep.program, "iterations": n, "outcomes": t0.outcome_set.iter().take(6).collect::<Vec<_>>()}));
+    rep
+}
+
+/// Map an outcome of the program with inserted control ops back to the original pcs.
+/// `inserted`: ascending indices (in the new op list of `thread`) of the inserted ops.
+fn remap_outcome(o: &str, thread: usize, inserted: &[usize]) -> String {
+    let mut parts = Vec::new();
+    for tok in o.split_whitespace() {
+        let (lhs, rhs) = tok.split_once('=').unwrap();
+        let (t, pc) = lhs[1..].split_once('.').unwrap();
+        let t: usize = t.parse().unwrap();
+        let mut pc: usize = pc.parse().unwrap();
+        if t == thread {
+            pc -= inserted.iter().filter(|&&x| x < pc).count();
+        }
+        parts.push(format!("T{}.{}={}", t, pc, rhs));
+    }
+    parts.join(" ")
+}
